@@ -155,7 +155,9 @@ theorem slice_abs (f : Frame) (a b : Int) (he : f.err = none)
   have h1 : ¬ a < 0 := by omega
   have h2 : ¬ a > b := by omega
   have h3 : ¬ b > (f.index.length : Int) := by omega
-  simp only [slice, he, Option.isSome_none, Bool.false_eq_true, ↓reduceIte, h1, h2, h3]
+  have hs : slice f a b = { f with index := (f.index.drop a.toNat).take (b.toNat - a.toNat) } := by
+    simp only [slice, he, Option.isSome_none, Bool.false_eq_true, ↓reduceIte, h1, h2, h3]
+  rw [hs]
   refine ⟨?_, rfl, he⟩
   simp only [Frame.abs, absSlice, List.map_map]
   apply List.map_congr_left
@@ -168,11 +170,11 @@ theorem slice_err (f : Frame) (a b : Int) (he : f.err = none)
     (slice f a b).err = some .badSlice ∧ (slice f a b).abs = f.abs ∧ (slice f a b).index = f.index := by
   simp only [slice, he, Option.isSome_none, Bool.false_eq_true, ↓reduceIte]
   split
-  · exact ⟨rfl, rfl, rfl⟩
+  · simp [withErr, Frame.abs]
   split
-  · exact ⟨rfl, rfl, rfl⟩
+  · simp [withErr, Frame.abs]
   split
-  · exact ⟨rfl, rfl, rfl⟩
+  · simp [withErr, Frame.abs]
   · exfalso; apply h; omega
 
 /-- the number of rows after a legal Slice is `b - a` -/
@@ -282,11 +284,10 @@ theorem selectLast_ok (f : Frame) (L : Nat) (wf : WF f L) (ns : List String) (i 
     | none => rw [hb] at h; exact ih i h
     | some c0 =>
       rw [hb] at h
-      simp only at h ⊢
       cases ht : selectLast f ns (i + 1) k with
       | some x =>
         rw [ht] at h
-        simp only [Option.or_some, Option.some.injEq] at h
+        have h : x = c := by simpa using h
         subst h
         obtain ⟨h1, h2, h3⟩ := ih (i + 1) ht
         refine ⟨by omega, ?_, h3⟩
@@ -511,23 +512,264 @@ theorem remaining_exist (f : Frame) (L : Nat) (wf : WF f L) (names : List String
   obtain ⟨c, hc, rfl⟩ := List.mem_map.mp hn
   exact wf.mapTotal c (List.mem_filter.mp hc).1
 
-/-- `Drop` without any assumption on the names of `f`: the remaining names, each looked up in the map -/
+/-- `Drop` of at least one name, without any assumption on the names of `f`: the remaining names, in
+    column order, each looked up in the name map.  (`Drop()` is the identity, see `drop_nil`.) -/
 theorem drop_abs_general (f : Frame) (L : Nat) (wf : WF f L) (names : List String) (he : f.err = none)
-    (hc : checkColumns f names = true) :
+    (hne : names ≠ []) (hc : checkColumns f names = true) :
     (drop f names).abs =
       ((f.cols.filter fun c => !names.contains c.name).map (·.name)).filterMap (lookup f) ∧
+    (drop f names).index =
+      (if (f.cols.filter fun c => !names.contains c.name).isEmpty then [] else f.index) ∧
     (drop f names).err = none := by
-  by_cases hn : names.isEmpty = true
-  · have : names = [] := by simpa using hn
-    subst this
+  have hn : names.isEmpty = false := by cases names with
+    | nil => exact absurd rfl hne
+    | cons => rfl
+  have hd : drop f names = select f ((f.cols.filter fun c => !names.contains c.name).map (·.name)) := by
+    simp [drop, he, hn, hc]
+  rw [hd]
+  obtain ⟨_, h2, h3, h4⟩ := select_abs f _ he (remaining_exist f L wf names)
+  refine ⟨h2, ?_, h4⟩
+  rw [h3]; simp
+
+/-- `Drop`: all names exist ⇒ no error, and the content is the remaining columns in the original order.
+    Needs `UniqueNames f`, because the remaining columns are fetched again through the name map. -/
+theorem drop_abs (f : Frame) (L : Nat) (wf : WF f L) (u : UniqueNames f) (names : List String)
+    (he : f.err = none) (hc : checkColumns f names = true) :
+    (drop f names).abs = absDrop f.abs names ∧
+    (drop f names).index =
+      (if names.isEmpty then f.index else if (absDrop f.abs names).isEmpty then [] else f.index) ∧
+    (drop f names).err = none := by
+  have hfm : ∀ l : List NCol, (∀ c, c ∈ l → c ∈ f.cols) →
+      (l.map (·.name)).filterMap (lookup f) = l.map (entry f.index) := by
+    intro l
+    induction l with
+    | nil => intro _; rfl
+    | cons c l ih =>
+      intro h
+      simp only [List.map_cons, List.filterMap_cons, lookup_of_mem wf u (h c List.mem_cons_self)]
+      rw [ih fun x hx => h x (List.mem_cons_of_mem _ hx)]
+  have habs : absDrop f.abs names = (f.cols.filter fun c => !names.contains c.name).map (entry f.index) := by
+    simp only [absDrop, Frame.abs, List.filter_map]
+    rfl
+  by_cases hne : names = []
+  · subst hne
     rw [drop_nil]
-    refine ⟨?_, he⟩
-    simp only [List.contains_nil, Bool.not_false, List.filter_true]
-    rw [List.filterMap_map]
-    have : ∀ l : List NCol, (∀ c, c ∈ l → c ∈ f.cols) → l.map (entry f.index) = l.filterMap (lookup f ∘ (·.name)) → True :=
-      fun _ _ _ => trivial
-    -- every column is looked up under its own name; without unique names this is stated via `lookup` only
-    sorry
-  · sorry
+    have : absDrop f.abs [] = f.abs := by simp [absDrop]
+    rw [this]
+    exact ⟨rfl, by simp, he⟩
+  · obtain ⟨h1, h2, h3⟩ := drop_abs_general f L wf names he hne hc
+    refine ⟨?_, ?_, h3⟩
+    · rw [h1, habs]; exact hfm _ fun c hc => (List.mem_filter.mp hc).1
+    · have hn : names.isEmpty = false := by cases names with
+        | nil => exact absurd rfl hne
+        | cons => rfl
+      rw [h2, habs, hn]; simp
+
+/-! ## Copy -/
+
+/-- qframe.go `Copy` -/
+def copy (f : Frame) (dst src : String) : Frame :=
+  if f.err.isSome then f
+  else match f.byName src with
+    | none => withErr f .unknownCol
+    | some c => if dst = src then f else setColumn f dst c.col
+
+theorem setColumn_badName (f : Frame) (name : String) (c : Col) (h : checkName name = false) :
+    setColumn f name c = withErr f .badName := by
+  simp [setColumn, h, withErr]
+
+theorem copy_of_err (f : Frame) (dst src : String) (he : f.err.isSome = true) : copy f dst src = f := by
+  simp [copy, he]
+
+theorem copy_wf (f : Frame) (L : Nat) (wf : WF f L) (dst src : String) : WF (copy f dst src) L := by
+  unfold copy
+  split
+  · exact wf
+  split
+  · exact withErr_wf wf _
+  · rename_i c hs
+    split
+    · exact wf
+    · cases hn : checkName dst with
+      | true => exact setColumn_wf f L wf dst c.col (wf.len c (byName_mem wf hs)) hn
+      | false => rw [setColumn_badName f dst c.col hn]; exact withErr_wf wf _
+
+/-- `Copy(dst, src)` with `dst ≠ src`, `src` present, `dst` a legal name: as `setColumn_abs`, with the
+    type and the cells of the source column (i.e. the entry `(dst, (entry f.index c).2)`). -/
+theorem copy_abs (f : Frame) (L : Nat) (wf : WF f L) (dst src : String) (c : NCol) (he : f.err = none)
+    (hs : f.byName src = some c) (hne : dst ≠ src) (hn : checkName dst = true) :
+    (copy f dst src).abs =
+      absSet f.abs ((f.byName dst).map (·.pos)) (dst, c.col.ty, f.index.map fun p => c.col.data[p]?) ∧
+    (copy f dst src).index = f.index ∧ (copy f dst src).err = none := by
+  have hcp : copy f dst src = setColumn f dst c.col := by
+    simp [copy, he, hs, hne]
+  rw [hcp]
+  obtain ⟨h1, h2, h3⟩ := setColumn_abs f L wf dst c.col hn
+  exact ⟨h1, h2, h3.trans he⟩
+
+/-- the same, with the source given by its `abs` entry -/
+theorem copy_abs_lookup (f : Frame) (L : Nat) (wf : WF f L) (dst src : String) (e : Entry) (he : f.err = none)
+    (hs : lookup f src = some e) (hne : dst ≠ src) (hn : checkName dst = true) :
+    (copy f dst src).abs = absSet f.abs ((f.byName dst).map (·.pos)) (dst, e.2) ∧
+    (copy f dst src).index = f.index ∧ (copy f dst src).err = none := by
+  unfold lookup at hs
+  cases hb : f.byName src with
+  | none => rw [hb] at hs; cases hs
+  | some c =>
+    rw [hb] at hs
+    simp only [Option.map_some, Option.some.injEq] at hs
+    subst hs
+    exact copy_abs f L wf dst src c he hb hne hn
+
+/-- afterwards the destination name holds the source's type and cells -/
+theorem copy_lookup (f : Frame) (dst src : String) (c : NCol) (he : f.err = none)
+    (hs : f.byName src = some c) (hne : dst ≠ src) (hn : checkName dst = true) :
+    lookup (copy f dst src) dst = some (dst, (entry f.index c).2) := by
+  have hcp : copy f dst src = setColumn f dst c.col := by
+    simp [copy, he, hs, hne]
+  rw [hcp]
+  unfold setColumn lookup
+  simp only [hn, Bool.not_true, Bool.false_eq_true, ↓reduceIte]
+  cases f.byName dst with
+  | none => simp [entry]
+  | some ex => simp [entry]
+
+/-- `Copy(x, x)` of an existing column is the identity -/
+theorem copy_self (f : Frame) (src : String) (hs : (f.byName src).isSome = true) : copy f src src = f := by
+  unfold copy
+  split
+  · rfl
+  · cases hb : f.byName src with
+    | none => rw [hb] at hs; cases hs
+    | some c => simp
+
+/-- unknown source: error, nothing else changes (also when `dst = src`) -/
+theorem copy_unknown (f : Frame) (dst src : String) (he : f.err = none) (hs : f.byName src = none) :
+    (copy f dst src).err = some .unknownCol ∧ (copy f dst src).abs = f.abs ∧
+    (copy f dst src).index = f.index := by
+  have : copy f dst src = withErr f .unknownCol := by simp [copy, he, hs]
+  rw [this]; exact ⟨rfl, rfl, rfl⟩
+
+/-- illegal destination name: error, nothing else changes -/
+theorem copy_badName (f : Frame) (dst src : String) (c : NCol) (he : f.err = none)
+    (hs : f.byName src = some c) (hne : dst ≠ src) (hn : checkName dst = false) :
+    (copy f dst src).err = some .badName ∧ (copy f dst src).abs = f.abs ∧
+    (copy f dst src).index = f.index := by
+  have : copy f dst src = withErr f .badName := by
+    simp [copy, he, hs, hne, setColumn_badName f dst c.col hn]
+  rw [this]; exact ⟨rfl, rfl, rfl⟩
+
+/-! ## `UniqueNames` is an invariant -/
+
+theorem set_self {α : Type} (l : List α) (i : Nat) (a : α) (h : l[i]? = some a) : l.set i a = l := by
+  induction l generalizing i with
+  | nil => rfl
+  | cons x l ih =>
+    cases i with
+    | zero => simp at h; simp [h]
+    | succ i => simp at h; simp [ih i h]
+
+theorem setColumn_unique (f : Frame) (L : Nat) (wf : WF f L) (u : UniqueNames f) (name : String) (c : Col) :
+    UniqueNames (setColumn f name c) := by
+  unfold setColumn
+  split
+  · exact u
+  · cases hb : f.byName name with
+    | none =>
+      simp only [UniqueNames, List.map_append, List.map_cons, List.map_nil]
+      rw [List.nodup_append]
+      refine ⟨u, by simp, ?_⟩
+      intro a ha b hb'
+      simp only [List.mem_singleton] at hb'
+      subst hb'
+      obtain ⟨x, hx, rfl⟩ := List.mem_map.mp ha
+      intro hxe
+      have := wf.mapTotal x hx
+      rw [hxe, hb] at this; cases this
+    | some ex =>
+      simp only [UniqueNames, List.map_set]
+      obtain ⟨h1, h2⟩ := wf.mapOk name ex hb
+      rw [set_self]
+      · exact u
+      · rw [List.getElem?_map, h1]; simp [h2]
+
+theorem drop_unique (f : Frame) (L : Nat) (wf : WF f L) (u : UniqueNames f) (names : List String) :
+    UniqueNames (drop f names) := by
+  unfold drop
+  split
+  · exact u
+  split
+  · exact u
+  · apply select_unique f L wf u
+    exact (List.filter_sublist.map _).nodup u
+
+theorem copy_unique (f : Frame) (L : Nat) (wf : WF f L) (u : UniqueNames f) (dst src : String) :
+    UniqueNames (copy f dst src) := by
+  unfold copy
+  split
+  · exact u
+  split
+  · exact u
+  · split
+    · exact u
+    · exact setColumn_unique f L wf u dst _
+
+/-! ## statements on the `abs` list alone (frames with unique names) -/
+
+/-- first entry with the given name -/
+def absLookup (l : List Entry) (n : String) : Option Entry := l.find? (·.1 == n)
+
+def absSelect (l : List Entry) (names : List String) : List Entry := names.filterMap (absLookup l)
+
+def absCopy (l : List Entry) (dst src : String) : List Entry :=
+  match absLookup l src with
+  | none => l
+  | some e => absSet l (l.findIdx? (·.1 == dst)) (dst, e.2)
+
+theorem find_of_mem (l : List NCol) (hd : (l.map (·.name)).Nodup) (c : NCol) (hc : c ∈ l) :
+    l.find? (·.name == c.name) = some c := by
+  induction l with
+  | nil => cases hc
+  | cons a l ih =>
+    simp only [List.map_cons, List.nodup_cons] at hd
+    rcases List.mem_cons.mp hc with h | h
+    · subst h; simp
+    · have hne : a.name ≠ c.name := by
+        intro he
+        apply hd.1
+        rw [he]; exact List.mem_map.mpr ⟨c, h, rfl⟩
+      simp only [List.find?_cons]
+      have : (a.name == c.name) = false := by simpa using hne
+      rw [this]
+      exact ih hd.2 h
+
+theorem lookup_eq_absLookup (f : Frame) (L : Nat) (wf : WF f L) (u : UniqueNames f) (n : String) :
+    lookup f n = absLookup f.abs n := by
+  unfold lookup absLookup
+  rw [abs_eq, List.find?_map]
+  cases hb : f.byName n with
+  | some c =>
+    obtain ⟨_, h2⟩ := wf.mapOk n c hb
+    have := find_of_mem f.cols u c (byName_mem wf hb)
+    rw [h2] at this
+    have hfun : ((fun e : Entry => e.1 == n) ∘ entry f.index) = fun c : NCol => c.name == n := rfl
+    rw [hfun, this]
+  | none =>
+    have : List.find? ((fun e : Entry => e.1 == n) ∘ entry f.index) f.cols = none := by
+      rw [List.find?_eq_none]
+      intro x hx hxe
+      have hn : x.name = n := by simpa [entry] using hxe
+      have := wf.mapTotal x hx
+      rw [hn, hb] at this; cases this
+    rw [this]; rfl
+
+theorem select_abs_pure (f : Frame) (L : Nat) (wf : WF f L) (u : UniqueNames f) (names : List String)
+    (he : f.err = none) (hc : checkColumns f names = true) :
+    (select f names).abs = absSelect f.abs names := by
+  rw [(select_abs f names he hc).2.1]
+  unfold absSelect
+  congr 1
+  funext n
+  exact lookup_eq_absLookup f L wf u n
 
 end QF.Props.C08
